@@ -720,6 +720,29 @@ func c14W3(c *Ctx, i int, r *rand.Rand) {
 			d1, _ := seqDiff(plain.Backend.Obs.Msgs, e.Backend.Obs.Msgs, false)
 			d2, _ := seqDiff(plain.Out.Msgs, e.Out.Msgs, false)
 			if !reflect.DeepEqual(vp, vm) || !msgsEqual(plain.Backend.Obs.Msgs, e.Backend.Obs.Msgs) || !msgsEqual(plain.Out.Msgs, e.Out.Msgs) {
+				// the witness must be replayable: the same pair again on a transcoder (and pool) of its own. A difference
+				// that does not come back depended on what earlier RPCs had left in the shared pool; it is kept in the
+				// evidence file as an unreproduced observation, and is not a verdict
+				again := false
+				if ft, ferr := buildTranscoder(s.Cfg, true); ferr == nil {
+					retwin := func() (*Exec, error) {
+						cr, sc, o := *s.Req, *s.Script, eo
+						o.Transcoder = ft
+						return runRPC(s.Cfg, &cr, &sc, rand.New(rand.NewPCG(seed, 3)), &o)
+					}
+					c14Monitor(false)
+					p2, e1 := retwin()
+					c14Monitor(true)
+					m2, e2 := retwin()
+					if e1 == nil && e2 == nil && p2.Panic == nil && m2.Panic == nil {
+						again = !reflect.DeepEqual(viewOf(p2), viewOf(m2)) || !msgsEqual(p2.Backend.Obs.Msgs, m2.Backend.Obs.Msgs) || !msgsEqual(p2.Out.Msgs, m2.Out.Msgs)
+					}
+				}
+				if !again {
+					c.Count("w3-twin-difference-not-reproduced")
+					c.SetExtra(fmt.Sprintf("unreproduced_twin_difference_round_%d_rpc_%d", i, k), clipS(fmt.Sprintf("untouched: %+v | poisoned: %+v | %s", vp, vm, plain.Describe())))
+					continue
+				}
 				c.Violate(i, "released-buffer-still-read/"+c20Field(vp, vm), fmt.Sprintf("request messages at the backend: %s; response messages at the client: %s\n"+"the same RPC, run alone twice: once with released pool buffers left as they are, once with every buffer overwritten the moment it is released. "+
 					"The outcomes differ, so something was read from a buffer after its release.\nuntouched: %+v\npoisoned: %+v\n--- untouched:\n%s--- poisoned on release:\n%s", orNone(d1), orNone(d2), vp, vm, plain.Describe(), e.Describe()))
 			}
